@@ -306,6 +306,11 @@ class World:
 
 
 # ---- file objects ------------------------------------------------------------------------------
+class _FileState:
+    def __init__(self):
+        self.closed = False
+
+
 class SymFile:
     def __init__(self, node, mode, name):
         self.node = node
@@ -317,8 +322,22 @@ class SymFile:
         self.writable_flag = m in ('r+', 'w', 'w+', 'a', 'a+', 'x', 'x+')
         self.append = m in ('a', 'a+')
         self.pos = 0
-        self.closed = False
-        _W.files.append(self)
+        self._st = _FileState()
+        _W.files.append(self._st)     # the world keeps the STATE, not the object: a file object that loses its last
+                                      # reference is closed by the interpreter, exactly like the real thing
+
+    @property
+    def closed(self):
+        return self._st.closed
+
+    @closed.setter
+    def closed(self, v):
+        self._st.closed = v
+
+    def __del__(self):
+        st = self.__dict__.get('_st')
+        if st is not None:
+            st.closed = True
 
     def __enter__(self):
         return self
